@@ -32,6 +32,7 @@ type interpreter struct {
 	allGlobals         []*ssa.Global
 	models             map[string]modelFn
 	harnessFilePrefix  string
+	harnessPkgPath     string
 	fset               *token.FileSet
 }
 
